@@ -216,11 +216,16 @@ Lemma limited_read_sound pre ck apply max size src rs :
   prefix_of (r_bytes r) src /\ reads_ok (r_tr r) = true /\
   (pre = None -> apply = true -> max < size -> r_kind r = KTooLarge /\ r_tr r = [] /\ r_bytes r = []).
 Proof.
-  unfold limited_read. destruct pre.
+  unfold limited_read, rfc_refuses.
+  change (rfc_ctx_test_before_stat gen_rfc) with true. change (rfc_guard_needs_apply gen_rfc) with true.
+  change (rfc_guard gen_rfc) with CGt. change (rfc_guard_nesting gen_rfc) with (@None (cmp * Z)).
+  change (rfc_guard_returns_toolarge gen_rfc) with true. change (rfc_max_default gen_rfc) with (-1).
+  change (rfc_max_from_limits_when_apply gen_rfc) with true. change (rfc_reads_at_most_max gen_rfc) with true.
+  cbv zeta. destruct pre.
   - simpl. repeat split; try apply prefix_nil; discriminate.
-  - destruct (apply && (max <? size)) eqn:E.
+  - destruct (apply && cmp_eval CGt size (if apply && true then max else -1) && true) eqn:E.
     + simpl. repeat split; try apply prefix_nil; reflexivity.
-    + cbv zeta. destruct (read_at_most_sound None ck (if apply then max else -1) src rs) as (P & T & _).
+    + destruct (read_at_most_sound None ck (if apply && true then max else -1) src rs) as (P & T & _).
       split; [exact P|]. split; [exact T|]. intros _ Ha Hlt. subst apply. simpl in E. lia.
 Qed.
 
